@@ -191,6 +191,35 @@ def _mk_spectrum(seed, shape, maskfrac=0.0, folded=False, pop_ids=None, scale=10
     return fs
 
 
+def _tmp(suffix):
+    import os, tempfile
+    d = '/dev/shm' if os.path.isdir('/dev/shm') else tempfile.gettempdir()
+    return os.path.join(d, 'verif-io-%d-%s' % (os.getpid(), suffix))
+
+
+def _fs_roundtrip(fs, precision=16, foldmaskinfo=True):
+    """write a spectrum to a file and read it back (the file is private to this process and removed)"""
+    import os, dadi
+    p = _tmp('fs.fs')
+    try:
+        fs.to_file(p, precision=precision, foldmaskinfo=foldmaskinfo)
+        return dadi.Spectrum.from_file(p)
+    finally:
+        if os.path.exists(p):
+            os.unlink(p)
+
+
+def _arr_roundtrip(a):
+    import os, dadi
+    p = _tmp('arr.txt')
+    try:
+        dadi.Numerics.array_to_file(a, p)
+        return dadi.Numerics.array_from_file(p)
+    finally:
+        if os.path.exists(p):
+            os.unlink(p)
+
+
 def _asetitem(arr, i, v):
     """a caller editing an array it was handed (its own grid, its own density) in place"""
     arr.flat[i % arr.size] = v
@@ -265,6 +294,12 @@ def _load():
     reg('grid', Numerics.default_grid, group='grid')
     reg('grid_exp', lambda pts, crwd=8.0: Numerics.exponential_grid(pts, crwd), group='grid')
     reg('grid_cumsum', _grid_cumsum, group='grid')
+    reg('grid_quadratic', Numerics.quadratic_grid, group='grid')
+    reg('estimate_best_exp_grid_crwd', Numerics.estimate_best_exp_grid_crwd, group='grid')
+    reg('end_point_first_derivs', Numerics.end_point_first_derivs, group='numerics')
+    reg('misid_call', lambda f, params, ns, pts: Numerics.make_anc_state_misid_func(f)(params, ns, pts), group='numerics')
+    reg('S.file_roundtrip', _fs_roundtrip, group='spectrum')
+    reg('array_file_roundtrip', _arr_roundtrip, group='numerics')
     # ---- synthetic inputs
     reg('mk_spectrum', _mk_spectrum, group='make')
     reg('mk_array', lambda seed, shape, scale=1.0: np.random.RandomState(seed).random_sample(tuple(shape)) * scale, group='make')
